@@ -11,6 +11,7 @@ CONSTANTS
   MaxRestarts = 1
   Kinds = {"waive", "stale", "equal", "future", "far", "neg", "negbig"}
   Pols = {"leader", "none"}
+  SrcSet = {"request", "server", "override"}
   Vias = {"api", "subj", "nats", "natsq", "plain"}
   MaxHolds = 2
   MaxSnaps = 1
